@@ -256,7 +256,7 @@ Theorem late_roots_ran rs st : exec_phase p = XDone rs st ->
 Proof.
   intros H q Hq. destruct (exec_phase_done _ _ H) as (R & [_ _ C] & _ & X).
   assert (In q rs) as Hin.
-  { unfold roots_of in R. apply roots_ok_spec in R as (_ & I & _); [now apply I| apply deps_of_lt| exact C]. }
+  { unfold roots_of in R. apply roots_ok_basic in R as (_ & I & _); [now apply I| apply deps_of_lt| exact C]. }
   split; [assumption| now apply X].
 Qed.
 
@@ -462,7 +462,7 @@ Proof.
       apply (filter_nil_inv _ _ Ep) in Hq. apply negb_false_iff in Hq. now apply memb_In.
     + assert (ND : NoDup (x :: pend)).
       { rewrite <- Ep. apply NoDup_filter. unfold roots_of in R.
-        apply roots_ok_spec in R as (ND & _); [exact ND| apply deps_of_lt| apply OK]. }
+        apply roots_ok_basic in R as (ND & _); [exact ND| apply deps_of_lt| apply OK]. }
       assert (Hd : forall r, In r (x :: pend) -> ~ In r ex).
       { intros r Hr. rewrite <- Ep in Hr. apply filter_In in Hr as [_ Hr].
         apply negb_true_iff in Hr. now apply memb_false. }
